@@ -534,6 +534,21 @@ func gzipVerifiedRule(c *Ctx, r *Report, sf *ssa.Function, rule string) {
 			verifiers[f] = true
 		}
 	}
+	// ... and functions that hand the job to such a function and pass its error on
+	for changed := true; changed; {
+		changed = false
+		for _, f := range c.SortedFuncs() {
+			if verifiers[f] || f == sf || hasCallTo(f, fnFullName(sf)) {
+				continue
+			}
+			for _, vc := range callsIn(f, func(k string, cc *ssa.Call) bool { return verifiers[cc.Call.StaticCallee()] }) {
+				if okh, _ := checkCallErrHandled(vc, true, nil); okh {
+					verifiers[f] = true
+					changed = true
+				}
+			}
+		}
+	}
 	n := 0
 	seen := map[*ssa.Function]bool{}
 	for _, sc := range c.callersOf(sf) {
